@@ -475,3 +475,20 @@ sub('special/besselLog.go','''  K = Kv - logScale
   return I, K''','''  K = -logScale + Kv
 
   return I, K''')
+# --- batch M rules
+sub('algorithm/saga/saga.go','''    max_delta = math.Max(max_delta, math.Abs(v2 - v1))''','''    dv := v1 - v2
+    max_delta = math.Max(math.Abs(dv), max_delta)''')
+sub('algorithm/lineSearch/lineSearch.go','''    if yj > y0 + c1*alpha_j*g0 || yj >= ylo {''','''    if yj > g0*alpha_j*c1 + y0 || yj >= ylo {''')
+sub('algorithm/householderBidiagonalization/householderBidiagonalization.go','''      if j > 0 {
+        nu.At(j-1).SetFloat64(0.0)
+      }''','''      if j >= 1 {
+        prev := j-1
+        nu.At(prev).SetFloat64(0.0)
+      }''')
+sub('algorithm/bfgs/bfgs.go','''      } else {
+        first_update = true
+        H2.Set(H0)
+      }''','''      } else {
+        H2.Set(H0)
+        first_update = true
+      }''')
